@@ -6,6 +6,11 @@ ids=[p['id'] for p in props]
 
 # id -> (technique, level text, level note, design ref)
 BUILT={
+"C08": ("proptest differential between two independent validators (JSON Schema draft-07 on the type's own schemars schema vs OpenAPI 3.0 on the published schema) over schema-directed valid/near-miss instances, plus a structural keyword-preservation walk; compiled type zoo and run-time keyword enrichment",
+        "About 70 compiled types (all numeric widths, formats, options, sequences, sets, maps, nested/recursive/generic structs, enums in every serde representation incl. overlapping untagged ones, flatten, deny_unknown_fields, range/length/regex attributes, docs, defaults, deprecated, examples) are published as request body and response through ApiDescription::openapi(); for generated instances the verdict of a draft-07 validator on schemars' draft-07 schema must equal the verdict of an OpenAPI-3.0 validator on the published schema; every constraint keyword and listed annotation in the schema handed to dropshot must have its dialect image in the published schema; the same two oracles run on those schemas enriched at random positions with keywords from the statement's vocabulary, published inline and by reference.",
+        "Sampling; 'supported' = the converter does not raise one of its explicit unsupported panics (counted, not judged); own validators cover the keyword subset schemars 0.8 emits; integer bounds added by enrichment are integral.",
+        "DESIGN.md section 4 C08"),
+
 "C16": ("proptest over disconnect scenarios (task mode x concurrent clients x endpoint x HTTP/1.1 or HTTP/2 x disconnect point x FIN/RST) on live servers; history invariant over a life-cycle event log",
         "Harness handlers append Entered/Completed to a sequence-numbered log and a guard object appends Dropped (or Panicked) when the handler future is dropped early; per scenario: every entered handler ends exactly one way exactly once; detached mode: never cancelled, always completed, also over HTTP/2 and for handlers that drop their RequestContext early; cancel-on-disconnect: a handler whose client sent the complete request and left is cancelled within a 2.5 s grace period and never completes; stayers complete and read full correct responses; unfinished requests never enter a handler; a panicking handler fails only its own request; health probe afterwards.",
         "Sampling of client-side schedules only: tokio's scheduler and kernel socket timing are not controlled, so a violation needing one specific interleaving may be missed; cancellation is judged after a grace period by further progress, never by latency.",
